@@ -57,22 +57,28 @@ theorem C07_reported_once (fails : Item → Bool) (st : State) (p : Side) (id e 
               simp [State.side_set_same, upd_same]
     · simp [step, ha] at h
 
-/-- **C07 (isolation).** Handling a frame that concerns channel `id` — data for a failing callback,
-a remote error, a close — leaves every other channel's record, callback, callback log and obtained
-items untouched (other than channels carried inside the item itself). -/
+/-- **C07 (isolation).** While the connection is up (`x.ioOpen`), handling a frame that concerns
+channel `id` — data for a failing callback, a remote error, a close — leaves every other channel's
+record, callback, callback log and obtained items untouched (other than channels carried inside the
+item itself).  (Once the IO has been closed, a raising callback can no longer report its error: the
+OSError of the failed CLOSE_ERROR write ends the receiver thread, whose epilogue closes every channel —
+`Net.C07_failing_callback_io_closed`.) -/
 theorem C07_isolation (fails : Item → Bool) (x : SideSt) (w : Bool) (f : Frame) (id : Nat)
-    (ht : f.target = some id) (j : Nat) (hj : j ≠ id) (hc : j ∉ f.carried) :
+    (hio : x.ioOpen = true) (ht : f.target = some id) (j : Nat) (hj : j ≠ id) (hc : j ∉ f.carried) :
     (handle fails x w f).chans j = x.chans j ∧ (handle fails x w f).cbs j = x.cbs j ∧
     (handle fails x w f).cbLog j = x.cbLog j ∧ (handle fails x w f).got j = x.got j ∧
     (handle fails x w f).kept j = x.kept j :=
-  Net.C07_isolation fails x w f id ht j hj hc
+  Net.C07_isolation fails x w f id hio ht j hj hc
 
-/-- **C07 (the connection stays up).** No channel-level frame — whatever its content, including a
-callback that raises — ends the receiver thread or closes the IO. -/
-theorem C07_connection_stays (fails : Item → Bool) (x : SideSt) (w : Bool) (f : Frame) (hf : f ≠ .terminate) :
+/-- **C07 (the connection stays up).** While the connection is up (`x.ioOpen`), no channel-level
+frame — whatever its content, not even a callback that raises — ends the receiver thread or closes
+the IO.  (The hypothesis is needed: after the IO has been closed, a raising callback's CLOSE_ERROR
+cannot be written and the escaping OSError ends the receiver thread.) -/
+theorem C07_connection_stays (fails : Item → Bool) (x : SideSt) (w : Bool) (f : Frame) (hf : f ≠ .terminate)
+    (hio : x.ioOpen = true) :
     (handle fails x w f).finished = x.finished ∧ (handle fails x w f).ioOpen = x.ioOpen ∧
     (handle fails x w f).gwerr = x.gwerr :=
-  Net.C07_connection_stays fails x w f hf
+  Net.C07_connection_stays fails x w f hf hio
 
 /-- **C07 (the failing side).** When a callback raises on an item, the failing side sends exactly one
 CLOSE_ERROR for that channel, unregisters the callback, and — if the channel object still exists —
